@@ -572,8 +572,8 @@ func (st *SlimTrie) getIthLeafBytes(ith int32) []byte {
 }
 
 func (st *SlimTrie) getLabels(qr *querySession) []uint64 {
-	bm, _ := st.getInnerBM(qr)
-	return bmtree.Decode(qr.to-qr.from, bm)
+	bm, size := st.getInnerBM(qr)
+	return bmtree.Decode(size, bm)
 }
 
 // getInnerBM retrieves the inner node bitmap cached by a querySession, and the size of bitmap.
@@ -584,7 +584,8 @@ func (st *SlimTrie) getInnerBM(qr *querySession) ([]uint64, int32) {
 	storedBMSize := qr.to - qr.from
 
 	if storedBMSize == ns.ShortSize {
-		return bmtree.Decode(innerSize, []uint64{qr.bm}), innerSize
+		// a short node: qr.bm is the full 17-bit bitmap looked up in ShortTable
+		return []uint64{qr.bm}, innerSize
 	}
 
 	// normal or big inner node
